@@ -163,7 +163,7 @@ class Peer:
         name = f.get('exc', 'ValueError')
         msg = f.get('msg')
         if name.startswith('doc:'):
-            cls = (frame_globals or {}).get(name[4:])
+            cls = (frame_globals or {}).get(name[4:].rsplit('.', 1)[-1])
             if cls is None:
                 cls = SimError
         elif name.startswith('mod:'):
